@@ -2,6 +2,7 @@
 pub mod api;
 pub mod driver;
 pub mod exec;
+pub mod fuzzing;
 pub mod gen;
 pub mod mockio;
 pub mod props;
